@@ -500,7 +500,15 @@ func (ex *Exec) clockNow() Value {
 	}
 	lo := uint64(timeUnixToInternal + 1_600_000_000)
 	hi := uint64(timeUnixToInternal + 1_900_000_000)
-	t := ex.ts.Var("clock#0", 64)
+	var t *Term
+	if ex.replay != nil {
+		t = K(64, ex.replay["clock#0"])
+		if t.C == 0 {
+			t = K(64, lo)
+		}
+	} else {
+		t = ex.ts.Var("clock#0", 64)
+	}
 	ex.assume(ex.ts.And(ex.ts.Cmp(OpULe, K(64, lo), t), ex.ts.Cmp(OpULe, t, K(64, hi))))
 	ex.ghost["clock"] = t
 	return ex.mkTime(t, nil)
